@@ -21,6 +21,8 @@ def enc_abs(v) -> bytes:
         return enc_str(b"o%d" % tok, 0x44)
     if tag == "ObjectIdentifier":
         return enc_oid((1, 3, 6, 1, tok))
+    if tag in ("OpaqueRaw", "OctetStringRaw"):     # content given octet by octet (e.g. content that is itself well-formed BER)
+        return enc_str(bytes(tok), 0x44 if tag == "OpaqueRaw" else 0x04)
     if tag == "ObjectIdentifierRaw":          # an OID value given by its arcs
         return enc_oid(tuple(tok))
     if tag == "IpAddress":
